@@ -617,7 +617,9 @@ struct is_generalised_matrix_vector<Index<Idx0...>,Index<Idx1...> > {
     static constexpr size_t which_one_is_vector = sizeof...(Idx0) > sizeof...(Idx1) ? 1 : 0;
     static constexpr size_t idx0[sizeof...(Idx0)] = {Idx0...};
     static constexpr size_t idx1[sizeof...(Idx1)] = {Idx1...};
-    static constexpr bool value = match_indices_from_end(idx0, idx1) && sizeof...(Idx0) != sizeof...(Idx1);
+    // the _matmul back ends assume that no index is repeated inside one list (a partial trace)
+    static constexpr bool no_repeats_within = no_of_unique<Idx0...>::value == sizeof...(Idx0) && no_of_unique<Idx1...>::value == sizeof...(Idx1);
+    static constexpr bool value = no_repeats_within && match_indices_from_end(idx0, idx1) && sizeof...(Idx0) != sizeof...(Idx1);
     static constexpr size_t matches_up_to = match_indices_from_end_index(idx0, idx1);
 };
 
@@ -630,7 +632,9 @@ struct is_generalised_vector_matrix<Index<Idx0...>,Index<Idx1...> > {
     static constexpr size_t which_one_is_vector = sizeof...(Idx0) > sizeof...(Idx1) ? 1 : 0;
     static constexpr size_t idx0[sizeof...(Idx0)] = {Idx0...};
     static constexpr size_t idx1[sizeof...(Idx1)] = {Idx1...};
-    static constexpr bool value = match_indices_from_start(idx0, idx1) && sizeof...(Idx0) != sizeof...(Idx1);
+    // the _matmul back ends assume that no index is repeated inside one list (a partial trace)
+    static constexpr bool no_repeats_within = no_of_unique<Idx0...>::value == sizeof...(Idx0) && no_of_unique<Idx1...>::value == sizeof...(Idx1);
+    static constexpr bool value = no_repeats_within && match_indices_from_start(idx0, idx1) && sizeof...(Idx0) != sizeof...(Idx1);
     static constexpr size_t matches_up_to = match_indices_from_start_index(idx0, idx1);
 };
 
@@ -646,7 +650,9 @@ struct is_generalised_matrix_matrix<Index<Idx0...>,Index<Idx1...> > {
     static constexpr bool is_inner = sizeof...(Idx0) == sizeof...(Idx1) && no_of_unique<Idx0...,Idx1...>::value == sizeof...(Idx1);
     static constexpr size_t idx0[sizeof...(Idx0)] = {Idx0...};
     static constexpr size_t idx1[sizeof...(Idx1)] = {Idx1...};
-    static constexpr bool value = !is_mat_vec && !is_vec_mat && !is_inner && match_indices_from_two_ends(idx0, idx1, ncontracted);
+    // the _matmul back ends assume that no index is repeated inside one list (a partial trace)
+    static constexpr bool no_repeats_within = no_of_unique<Idx0...>::value == sizeof...(Idx0) && no_of_unique<Idx1...>::value == sizeof...(Idx1);
+    static constexpr bool value = no_repeats_within && !is_mat_vec && !is_vec_mat && !is_inner && match_indices_from_two_ends(idx0, idx1, ncontracted);
 };
 //--------------------------------------------------------------------------------------------------------------------//
 } // namespace internal
